@@ -339,6 +339,22 @@ def check(pid, tier, seed, t0, st, replay):
                     # keep the disagreeing input for replay
                     c0 = ex['recs'][d0[0]]['case']
                     res.notes.append({'first_disagreeing_input': replay_payload(pid, c0, 'model/implementation disagreement', d0[2][:500])})
+                if pid in ('C05', 'C06') and st.get('javaoracle', 1) == 0:
+                    # the family's files are real Java: the JDK's own parser accepts every one of them
+                    fam = [c_ for c_ in cases if c_['origin'] == 'family']
+                    paths = []
+                    for c_ in fam:
+                        pth = os.path.join(work, 'jv_%s.java' % c_['id'])
+                        open(pth, 'wb').write(c_['data'])
+                        paths.append(pth)
+                    nbad = 0
+                    for i in range(0, len(paths), 400):
+                        rc_, o_, e_ = run(['java', '-cp', B + '/javaoracle', 'JavaOracle'] + paths[i:i + 400], timeout=900)
+                        bad_ = [l for l in o_.decode(errors='replace').splitlines() if l.startswith('SYNTAX')]
+                        nbad += len(bad_)
+                        if bad_ and not any('JDK parser' in t for t in res.tie_broken):
+                            res.tie_broken.append('generator ground truth is not valid Java (JDK parser): ' + bad_[0][:300])
+                    res.coverage['javac_parse_validated'] = dict(files=len(paths), syntax_errors=nbad)
                 if pid in ('C05', 'C06'):
                     tr = sum(v for k, v in stats.items() if k.startswith('spec_truth_'))
                     sh = sum(v for k, v in stats.items() if k.startswith('spec_shaped_'))
